@@ -51,6 +51,8 @@ impl Scheduler {
                         task.set_err(&err.into());
                         let _ = ctx.emit_error();
                     });
+                    #[cfg(feature = "verif")]
+                    crate::verif::task_done();
                 }
                 Signal::Terminal => {
                     *self.closed.lock().unwrap() = true;
